@@ -444,6 +444,50 @@ EvalPreds(prog, pm, todo, db, dev) ==
                   ELSE EvalPreds(prog, pm, todo \ ms,
                                  SimIter(pm, ms, [q \in ms |-> <<>>], db, c.depth + 1, dev) @@ db, dev)
 
+(* ---- strategy-independent reading of recursion (property C03) ----------- *)
+(* The exact count of applications is prescribed for self recursion, for    *)
+(* iterative execution (depth > 20 or iterative: true) and for groups that  *)
+(* cannot be cut at any single member (they can only be unfolded flat).     *)
+(* For the other mutually recursive groups only the interval                *)
+(*   SimIter(depth+1)  <=  result  <=  least fixpoint        (as sets)      *)
+(* is prescribed.                                                           *)
+ReachWithin(pm, ms, from) ==
+  \* members of ms reachable from `from` through edges inside ms
+  LET RECURSIVE Go(_, _)
+      Go(seen, frontier) ==
+        IF frontier = {} THEN seen
+        ELSE LET nxt == (UNION {NeedsOf(pm, q) \cap ms : q \in frontier}) \ seen
+             IN Go(seen \cup nxt, nxt)
+  IN Go({}, from)
+Acyclic(pm, ms) == \A q \in ms : q \notin ReachWithin(pm, ms, {q})
+HasCut(pm, ms) == \E q \in ms : Acyclic(pm, ms \ {q})
+ExactComp(pm, c) ==
+  c.depth >= 0 /\ (Len(c.members) = 1 \/ c.iterative \/ c.depth > 20
+                   \/ ~HasCut(pm, Range(c.members)))
+
+RowSet(rows) == {rows[i] : i \in 1..Len(rows)}
+SetLE(a, b) == RowSet(a) \subseteq RowSet(b)
+
+(* Iterate a component further until it is stable as sets (or fuel ends). *)
+RECURSIVE FixFrom(_, _, _, _, _, _)
+FixFrom(pm, ms, cur, db, fuel, dev) ==
+  LET ctx == [preds |-> pm, db |-> cur @@ db, dev |-> dev]
+      nxt == [p \in ms |-> PredRows(pm[p], ctx)]
+  IN IF \A p \in ms : RowSet(nxt[p]) = RowSet(cur[p]) THEN [rows |-> cur, conv |-> TRUE]
+     ELSE IF fuel = 0 THEN [rows |-> nxt, conv |-> FALSE]
+     ELSE FixFrom(pm, ms, nxt, db, fuel - 1, dev)
+
+UpperOf(prog, den, c, dev) ==
+  LET pm == PredMap(prog)
+      ms == Range(c.members)
+  IN FixFrom(pm, ms, [p \in ms |-> den[p]], den, 2 * c.depth + 6, dev)
+
+RECURSIVE DepsT(_, _, _)
+DepsT(pm, seen, frontier) ==
+  IF frontier = {} THEN seen
+  ELSE LET nxt == (UNION {NeedsOf(pm, q) : q \in frontier}) \ seen
+       IN DepsT(pm, seen \cup nxt, nxt)
+
 DenDev(prog, dev) ==
   LET pm == PredMap(prog)
       mat == {p \in DOMAIN pm : ~pm[p].inline}
